@@ -225,7 +225,7 @@ func init() {
 	register("c08", func(args []string) int {
 		f := parseFlags("c08", args)
 		rep := newReport("C08", f)
-		rep.Rule = "fault-position sweep (a commit fails at its k-th page write, with and without partial effect, or at its first / second sync, after 1 or 2 prior commits, once or twice in a row; the next commit must succeed and survive a reopen); random histories with 1-3 injected fault directives (kind in {write error before effect, short write then error, sync, truncate, mmap, size}, the N-th next call of that kind, burst length 1-3), half of them placed right before a commit; after the faults a fault-free tail (two transactions that must commit, verify, reopen, verify). Oracle: no panic, no hang (20 s watchdog + lock state), a Commit fails only if an I/O call failed while its transaction was open, map/ownership oracles in process, a reopen shows the last committed state or completely the state of the failed attempt. Non-trivial: distinct (config, fault plan)."
+		rep.Rule = "fault-position sweep (a commit fails at its k-th page write, with and without partial effect, or at its first / second sync, after 1 or 2 prior commits, once or twice in a row; the next commit must succeed and survive a reopen); I/O failures at every position while Open lowers the maximum size (process state == a fresh open of the same file); random histories with 1-3 injected fault directives (kind in {write error before effect, short write then error, sync, truncate, mmap, size}, the N-th next call of that kind, burst length 1-3), half of them placed right before a commit; after the faults a fault-free tail (two transactions that must commit, verify, reopen, verify). Oracle: no panic, no hang (20 s watchdog + lock state), a Commit fails only if an I/O call failed while its transaction was open, map/ownership oracles in process, a reopen shows the last committed state or completely the state of the failed attempt. Non-trivial: distinct (config, fault plan)."
 		if f.replay != "" {
 			rp, err := loadHistReplay(f.replay)
 			if err != nil {
@@ -281,6 +281,36 @@ func init() {
 						c08Case(rep, cfg, ops, int64(1000+prior*100+fk.kind*10+pos), fmt.Sprintf("sweep prior=%d kind=%d pos=%d x%d", prior, fk.kind, pos, rep2))
 						rep.count("scenario:fault-position-sweep", 1)
 					}
+				}
+			}
+		}
+		// I/O failures while Open lowers the maximum size of a file (FlagUpdMaxSize): the transaction that stores the
+		// new limit and the one that releases the pages behind it (which "is allowed to fail") - at every position of
+		// the first failing write / sync, single failures and bursts. Open reports an error or succeeds; either way
+		// the process works with exactly what is on disk (process-vs-disk oracle of the engine: allocator state and
+		// mapping equal to those of a fresh Open), the next commits succeed, a reopen shows them.
+		for kind := 0; kind <= 1; kind++ {
+			for pos := 0; pos <= 7; pos++ {
+				for _, burst := range []int{1, 3, 1000} {
+					var ops []engine.Op
+					ops = append(ops, engine.Op{Kind: "begin"}, engine.Op{Kind: "alloc", N: 150})
+					for k := 0; k < 6; k++ {
+						ops = append(ops, engine.Op{Kind: "setfull", P: k, Seed: 30 + k})
+					}
+					ops = append(ops, engine.Op{Kind: "commit"}, engine.Op{Kind: "begin"})
+					for k := 0; k < 110; k++ {
+						ops = append(ops, engine.Op{Kind: "free", P: 40}) // the last 110 pages: one free region up to the end marker
+					}
+					ops = append(ops, engine.Op{Kind: "commit"}, engine.Op{Kind: "verify"},
+						engine.Op{Kind: "fault", P: kind, N: pos, Len: burst},
+						engine.Op{Kind: "reopen-under-faults", Flags: uint64(txfile.FlagUpdMaxSize), MaxSize: uint64(64+4*(pos%4)) * 1024},
+						engine.Op{Kind: "nofault"}, engine.Op{Kind: "verify"},
+						engine.Op{Kind: "begin"}, engine.Op{Kind: "alloc", N: 3}, engine.Op{Kind: "setfull", P: 7, Seed: 91}, engine.Op{Kind: "commit-must-succeed"}, engine.Op{Kind: "verify"},
+						engine.Op{Kind: "reopen"}, engine.Op{Kind: "verify"},
+						engine.Op{Kind: "begin"}, engine.Op{Kind: "free", P: 1}, engine.Op{Kind: "alloc", N: 1}, engine.Op{Kind: "commit-must-succeed"}, engine.Op{Kind: "verify"})
+					cfg := engine.Config{PageSize: 1024, MaxSize: 256 * 1024, InitMetaArea: uint32(4 + 4*(pos%2))} // (meta area in front: the free region reaches the end marker)
+					c08Case(rep, cfg, ops, int64(3000+kind*100+pos*10+burst%7), fmt.Sprintf("shrink-open kind=%d pos=%d burst=%d", kind, pos, burst))
+					rep.count("scenario:faults-while-open-lowers-the-maximum-size", 1)
 				}
 			}
 		}
